@@ -610,6 +610,56 @@ def snippet_multi(case, x, cfg, pts):
         'print(c34.run_one_multi(case, x, cfg, pts, tempfile.mkdtemp()))'])
 
 
+# ---------------------------------------------------------------------------------------------------------------------
+# sampled sparsity: declare_coloring and every jax component keep the sparsity seen at the first linearization
+# ---------------------------------------------------------------------------------------------------------------------
+def samples_sparsity(cfg):
+    return bool(cfg.get('col')) or cfg['kind'] in ('jexp', 'jimp')
+
+
+def stale_risk(blocks, tols):
+    """blocks[k]: {key: dense exact block at point k}, tols[k] the comparison tolerance there.  True when an entry that
+    cannot be told from zero at the first point (within the tolerance: a saturated tanh, an underflowing exp, a
+    cancellation ... of a smooth function; the numerically computed derivative may be exactly 0 there) is nonzero at a
+    later point: the component may keep treating it as structurally zero (the documented limitation of a sampled
+    sparsity; C14 records it as C14-coloring-stale-sparsity-underflow)."""
+    import numpy as np
+    if len(blocks) < 2:
+        return False
+    for k in range(1, len(blocks)):
+        for key, E in blocks[k].items():
+            E0 = blocks[0][key]
+            if np.any((np.abs(E) > tols[k]) & (np.abs(E0) <= tols[0])):
+                return True
+    return False
+
+
+def limit_points(rec, cfg, pts, yvals):
+    """single-output family: keep only the first point when the sampled sparsity would be stale at a later one"""
+    if not samples_sparsity(cfg) or len(pts) < 2:
+        return pts, yvals, False
+    vals = [spec_values(rec, cfg, pt, yv) for pt, yv in zip(pts, yvals)]
+    if stale_risk([v[1] for v in vals], [RTOL * v[2] for v in vals]):
+        return pts[:1], yvals[:1], True
+    return pts, yvals, False
+
+
+def limit_points_multi(case, x, cfg, pts):
+    import numpy as np
+    if not samples_sparsity(cfg) or len(pts) < 2:
+        return pts, False
+    recs = multi_recs(case, x)
+    ysh = SHP[case['sc']['ysh']]
+    blocks, tols = [], []
+    for pt in pts:
+        exp = {y: expected(recs[y], pt, ysh) for y in recs}
+        blocks.append({(y, w): E for y in exp for w, E in exp[y][1].items()})
+        tols.append(RTOL * max(e[2] for e in exp.values()))
+    if stale_risk(blocks, tols):
+        return pts[:1], True
+    return pts, False
+
+
 _MCASES = []
 
 
@@ -650,7 +700,9 @@ def _worker(arg):
                 out.append({'i': i, 'cfg': cfg, 'skip': 'no point satisfies the domain constraints'})
                 continue
             obj = getattr(mod, ('f_' if case['sc']['api'] == 'func' else 'C_') + tag)
+            pts, cut = limit_points_multi(case, x, cfg, pts)
             fails, info = compare_multi(case, x, cfg, obj, pts)
+            info['single_point_underflow'] = cut
             out.append({'i': i, 'cfg': cfg, 'pts': [{v: a.tolist() for v, a in pt.items()} for pt in pts], 'yvals': [],
                         'src': gen_source_multi(case, x, cfg, 'k'),
                         'fails': [(f[0], c14._l(f[1]), c14._l(f[2]), f[3]) for f in fails[:4]], 'info': info})
@@ -670,7 +722,9 @@ def _worker(arg):
         ysh = yshape_of(cfg)
         yvals = [np.round(rs.uniform(-2, 2, size=ysh), 3) for _ in pts]
         obj = getattr(mod, ('f_' if cfg['kind'] in ('efc', 'ifc') else 'C_') + tag)
+        pts, yvals, cut = limit_points(rec, cfg, pts, yvals)
         fails, info = compare(rec, cfg, obj, pts, yvals)
+        info['single_point_underflow'] = cut
         out.append({'i': i, 'cfg': cfg, 'pts': [{v: a.tolist() for v, a in pt.items()} for pt in pts],
                     'yvals': [a.tolist() for a in yvals], 'src': gen_source(rec, cfg, 'k'),
                     'fails': [(f[0], c14._l(f[1]), c14._l(f[2]), f[3]) for f in fails[:4]], 'info': info})
@@ -878,6 +932,7 @@ def run(ctx):
     nrun = nskip = npoints = 0
     classes, per_kind = {}, {}
     mseen = {}
+    ncut = sum(1 for o in res if 'skip' not in o and o['info'].get('single_point_underflow'))
     for o in res:
         cfg = o['cfg']
         if _is_multi(cfg):
@@ -934,7 +989,8 @@ def run(ctx):
     ctx.extra.update({'failure_classes': classes, 'scenarios_per_component_kind': per_kind,
                       'scenarios_skipped_infeasible_domain': nskip, 'trees_exhaustive': nexh,
                       'trees_simulated': len(sim), 'multi_structures_enumerated': mstat['structures'],
-                      'multi_scenarios_per_structure_class': mseen})
+                      'multi_scenarios_per_structure_class': mseen,
+                      'scenarios_cut_to_one_point_sampled_sparsity_underflow': ncut})
     shown = 0
     for o in res:
         if 'skip' not in o and _is_multi(o['cfg']) and o['cfg']['kind'] == 'ifc' and \
@@ -970,7 +1026,11 @@ def run(ctx):
         'method=fd is not compared (not exact; C12 covers the approximation schemes)',
         'the property quantifies over smooth functions: trees with maximum/minimum/abs are evaluated at a single point '
         'whenever the component samples its sparsity at the first linearization (declare_coloring; every jax component, '
-        'which deletes sub-Jacobians that are entirely zero at that point - repository tests rely on that pruning)',
+        'which deletes sub-Jacobians that are entirely zero at that point - repository tests rely on that pruning); the '
+        'same holds for a smooth tree with a derivative entry that is zero within the comparison tolerance at the first '
+        'point (saturated tanh, underflow) and nonzero at the second: only the first point is compared (counted in '
+        'scenarios_cut_to_one_point_sampled_sparsity_underflow; the limitation itself is C14-coloring-stale-sparsity-'
+        'underflow)',
         'points keep a margin of %.2f from kinks, ties, poles and domain boundaries; tolerance 1e-9 x the largest '
         'intermediate magnitude' % c14.MARGIN,
         'implicit components: residuals and d residual / d (inputs, state) are compared; no nonlinear / linear solve',
